@@ -504,7 +504,9 @@ def _do_op(chart, twin, op, ii, dj, form, a, b):
             chart != twin
             for e, f in zip(_all_events(chart), _all_events(twin)):
                 e == f
-                hash(e)
+            with H.untraced():      # no symbolic input; CrossHair's hash model forks needlessly
+                for e in _all_events(chart):
+                    hash(e)
         elif op == 6:
             for dd in list(chart.instrument_tracks.values()):
                 for t in list(dd.values()):
@@ -535,54 +537,63 @@ def _do_op(chart, twin, op, ii, dj, form, a, b):
                 pass
 
 
-def _c19_pre(ops):
-    for (op, ii, dj, form) in ops:
-        if not (0 <= op < NOPS and 0 <= ii < len(INSTR_SET) and 0 <= dj < len(DIFF_ALL) and 0 <= form <= 5):
-            return False
-        if op not in (0, 1, 7, 8) and ii != 0:
-            return False
-        if op not in (0, 1, 7, 8) and dj != 0:
-            return False
-        if op != 0 and form != 0:
-            return False
-    return True
+def _cases(ops):
+    out = []
+    for op in ops:
+        if op == 0:
+            out += [(0, ii, dj, f) for ii in range(len(INSTR_SET)) for dj in range(len(DIFF_ALL)) for f in range(6)]
+        elif op in (1, 7, 8):
+            out += [(op, ii, dj, 0) for ii in range(len(INSTR_SET)) for dj in range(len(DIFF_ALL))]
+        else:
+            out.append((op, 0, 0, 0))
+    return out
 
 
-def immutability(op: int, ii: int, dj: int, form: int, a: int, b: int) -> bool:
+import os as _os  # noqa: E402
+
+OP1SET = [int(x) for x in _os.environ.get("VF_OP1SET", "0,1,2,3,4,5,6,7,8").split(",")]
+OP2SET = [int(x) for x in _os.environ.get("VF_OP2SET", "0,1,2,3,4,5,6,7,8").split(",")]
+CASES1 = _cases(OP1SET)
+CASES2 = _cases(OP2SET)
+
+
+def immutability(c1: int, a: int, b: int) -> bool:
     """
-    pre: _c19_pre([(op, ii, dj, form)])
+    pre: 0 <= c1 < len(CASES1)
     pre: a >= 0 and b >= 0
     post: _
     """
     if _C19_ERR is not None:
         raise _C19_ERR
-    chart = copy.deepcopy(_PRISTINE)
+    (op, ii, dj, form) = H.pick(CASES1, c1)
+    with H.untraced():
+        chart = copy.deepcopy(_PRISTINE)
     twin = _TWIN
-    ok = observe(chart) == _OBS0 and chart == twin
     _do_op(chart, twin, op, ii, dj, form, a, b)
-    ok = ok and observe(chart) == _OBS0 and chart == twin and twin == chart
+    with H.untraced():
+        ok = observe(chart) == _OBS0 and chart == twin and twin == chart
     return done(ok)
 
 
-OP1 = H.part("VF_OP1", -1)
-
-
-def immutability2(op: int, ii: int, dj: int, form: int, a: int, b: int,
-                  op2: int, ii2: int, dj2: int, form2: int) -> bool:
+def immutability2(c1: int, c2: int, a: int, b: int) -> bool:
     """
-    pre: _c19_pre([(op, ii, dj, form), (op2, ii2, dj2, form2)])
-    pre: OP1 < 0 or op == OP1
+    pre: 0 <= c1 < len(CASES1) and 0 <= c2 < len(CASES2)
     pre: a >= 0 and b >= 0
     post: _
     """
     if _C19_ERR is not None:
         raise _C19_ERR
-    chart = copy.deepcopy(_PRISTINE)
+    (op, ii, dj, form) = H.pick(CASES1, c1)
+    (op2, ii2, dj2, form2) = H.pick(CASES2, c2)
+    with H.untraced():
+        chart = copy.deepcopy(_PRISTINE)
     twin = _TWIN
     _do_op(chart, twin, op, ii, dj, form, a, b)
-    ok = observe(chart) == _OBS0 and chart == twin
+    with H.untraced():
+        ok = observe(chart) == _OBS0 and chart == twin
     _do_op(chart, twin, op2, ii2, dj2, form2, b, a)
-    ok = ok and observe(chart) == _OBS0 and chart == twin and twin == chart
+    with H.untraced():
+        ok = ok and observe(chart) == _OBS0 and chart == twin and twin == chart
     return done(ok)
 
 
